@@ -112,7 +112,9 @@ async fn run_async(case: &Val) -> Val {
         );
         let _ = i;
         clients.push(Client {
-            fut: Some(Box::pin(fut)),
+            // unconstrained: the futures are polled by hand inside one block_on poll, so tokio's
+            // cooperative budget (128 operations per task poll) must not make the stream look Pending
+            fut: Some(Box::pin(tokio::task::unconstrained(fut))),
             server: Some(server_io),
             addr,
             cancel,
@@ -126,6 +128,7 @@ async fn run_async(case: &Val) -> Val {
     let mut events: Vec<Val> = vec![Val::L(vec![Val::I(0), Val::I(-1)])];
     events.extend(case.at(2).list().iter().cloned());
     for ev in &events {
+        tokio::task::yield_now().await; // fresh cooperative budget for this event
         let c = ev.at(0).usize();
         match ev.at(1).int() {
             -1 => {}
